@@ -392,6 +392,39 @@ func (e *env) framing(cs consensus.State, blk types.Block) {
 		if a.ID() == bb.ID() || cs.InputSigHash(a) == cs.InputSigHash(bb) {
 			e.b.Violate("C12/id-collision/v2/arbitrary-data-vs-new-foundation-address", "two v2 transactions - one carrying extra arbitrary data, the other a Foundation address change - have the same ID / input signature hash: the arbitrary data is not framed in the semantic encoding", map[string]any{"arbitrary_data_len": len(x)})
 		}
+		// resolution kinds: a renewal whose first field reads as "0 attestations, L bytes of arbitrary data" against an
+		// expiration of the same contract whose arbitrary data is the rest of the renewal's encoding. They resolve the
+		// contract in different ways, so their IDs and input signature hashes must differ: the kind must be framed.
+		{
+			var ren types.V2FileContractRenewal
+			ren.FinalRenterOutput.Address[0], ren.FinalHostOutput.Address[0] = 0x11, 0x22
+			ren.RenterRollover, ren.HostRollover = types.Siacoins(13), types.Siacoins(7)
+			ren.NewContract.RenterOutput.Value, ren.NewContract.HostOutput.Value = types.Siacoins(9), types.Siacoins(11)
+			ren.NewContract.ProofHeight, ren.NewContract.ExpirationHeight = cs.Index.Height+20, cs.Index.Height+30
+			ren.NewContract.RenterPublicKey[0], ren.NewContract.HostPublicKey[0] = 0x33, 0x44
+			encRen := func() []byte {
+				var buf bytes.Buffer
+				en := types.NewEncoder(&buf)
+				ren.EncodeTo(en) // signatures are zero, as in the semantic encoding
+				en.WriteUint64(0) // attestations of the renewing transaction
+				en.WriteUint64(0) // its arbitrary data
+				en.Flush()
+				return buf.Bytes()
+			}
+			L := len(encRen()) - 16
+			ren.FinalRenterOutput.Value = types.NewCurrency(0, uint64(L)) // lo = 0 attestations, hi = L bytes follow
+			var parent types.V2FileContractElement
+			parent.ID[0], parent.ID[1] = 0x09, byte(cs.Index.Height)
+			r2 := ren
+			ta := types.V2Transaction{FileContractResolutions: []types.V2FileContractResolution{{Parent: parent.Copy(), Resolution: &r2}}}
+			tb := types.V2Transaction{FileContractResolutions: []types.V2FileContractResolution{{Parent: parent.Copy(), Resolution: &types.V2FileContractExpiration{}}}, ArbitraryData: encRen()[16:]}
+			e.b.Eval(1)
+			e.b.Count("framing_pairs", 1)
+			e.b.Distinct("framing", "resolution-kind/renewal-vs-expiration")
+			if ta.ID() == tb.ID() || cs.InputSigHash(ta) == cs.InputSigHash(tb) {
+				e.b.Violate("C12/id-collision/v2/resolution-kind/renewal-vs-expiration-with-arbitrary-data", "a transaction renewing a contract and a transaction expiring the same contract (its arbitrary data holding the rest of the renewal's encoding) have the same ID and input signature hash: the resolution kind is not part of the semantic encoding", map[string]any{"arbitrary_data_len": L})
+			}
+		}
 		// attestation key/value boundary
 		if len(base.Attestations) > 0 {
 			a2, b2 := chaingen.CloneV2(base), chaingen.CloneV2(base)
@@ -435,7 +468,23 @@ func (e *env) eras(cs consensus.State, blk types.Block) {
 	add("v2", n.HardforkV2.AllowHeight)
 	for ti := range blk.Transactions {
 		t := blk.Transactions[ti]
-		if len(t.Signatures) == 0 || len(t.SiacoinInputs)+len(t.SiafundInputs) == 0 {
+		if len(t.Signatures) == 0 {
+			continue
+		}
+		if len(t.SiacoinInputs)+len(t.SiafundInputs) == 0 {
+			// a signed transaction without inputs (a revision): its signature must be bound to its era all the same
+			s0 := t.Signatures[0]
+			got := map[[32]byte]bool{}
+			for _, h := range heights {
+				st := cs
+				st.Index.Height = h
+				got[st.WholeSigHash(t, s0.ParentID, s0.PublicKeyIndex, s0.Timelock, nil)] = true
+			}
+			e.b.Eval(1)
+			e.b.Count("era_separation_cases_without_inputs", 1)
+			if len(heights) > 1 && len(got) == 1 {
+				e.b.Violate("C12/sighash-not-bound-to-era/WholeSigHash/transaction-without-inputs", "the whole-transaction signature hash of a signed v1 transaction without siacoin or siafund inputs (a contract revision) is the same in every replay-prefix era: the prefix is only written next to inputs", nil)
+			}
 			continue
 		}
 		s0 := t.Signatures[0]
@@ -699,7 +748,7 @@ func main() {
 	harness.Main(harness.Spec{
 		ID:     "C12",
 		Rule:   "transactions and blocks of chaingen histories (all kinds, all eras). (1) for a sample of every transaction's exported leaf fields (reflection), the field is mutated and ID, derived output/contract/attestation IDs, FullHash, MerkleLeafHash and the signature hashes are compared before/after against the rule table changed / unchanged / either; (2) all derived IDs and signature hashes are labelled (kind, index, owner) in one table: equal values under different labels are collisions; (3) v1 signature hashes of transactions with inputs under each replay-prefix era; (4) block content mutations keeping the header: ID changes or ValidateBlock rejects. distinct = (version, field class, rule).",
-		Assume: []string{"exempt fields are exactly those the statement lists; the storage-proof object of a v2 resolution, an attestation's own signature and the never-transmitted revision payout are unconstrained ('either')", "v1 transactions without inputs carry no replay prefix by protocol design and are not judged for era separation"},
+		Assume: []string{"exempt fields are exactly those the statement lists; the storage-proof object of a v2 resolution, an attestation's own signature and the never-transmitted revision payout are unconstrained ('either')", "signed v1 transactions without inputs are judged for era separation under a key of their own (known finding: siad-inherited design)"},
 		Batches: func(t string) int {
 			if t == "quick" {
 				return 16
